@@ -47,7 +47,9 @@ class C13(Prop):
                   "concatenation; reverse complement is an involution with the stated column map; esl-seqrange partitions 1..n into consecutive "
                   "chunks differing by at most one; esl-selectn / easel downsample output is a size-m sub-multiset of the input for EVERY roll "
                   "function; esl-mask changes exactly the requested coordinates and keeps the length; esl-alipid counters are bounded and symmetric; "
-                  "esl-shuffle -m/-w output is a permutation of the input for every roll function; esl-reformat residue options (idempotence, -r/-d inverse). "
+                  "esl-shuffle -m/-w output is a permutation of the input for every roll function; esl-reformat residue options (idempotence, -r/-d inverse, "
+                  "fasta->afa->fasta identity); esl-alistat counts. esl-translate, esl-weight and easel filter are compositions of the C17 ORF machine and the "
+                  "C16 weighting/filter models (their theorems are Props/C17, Props/C16) with the FASTA reader/Stockholm writer. "
                   "Tie: the sanitizer-built tools of the working tree are run on generated valid inputs and their COMPLETE stdout is compared with the "
                   "reference's prediction (seeded tools exactly, through the C09 generator model). "
                   "NOT proved: 'never dies for any file content and option combination' over the 27 entry points - that half is a SEARCH "
@@ -56,15 +58,17 @@ class C13(Prop):
                   "pages/tool sources, tied by exact stdout comparison only on the generated valid-input distribution; printf rounding modelled by exact "
                   "rational round-half-even (L0); the crash/hang half is support, not proof: a tool death outside the explored inputs is not excluded. "
                   "Tools with no reference function (esl-ssdraw, -alimanip, -alimerge, -alimask, -alimap, -compalign, -compstruct, -construct, -histplot, "
-                  "-mixdchlet, -afetch, -alistat, -weight, -translate, easel alistat/filter/index) are covered by the search only. "
+                  "-mixdchlet) are covered by the search only; esl-afetch and the other alignment formats of esl-reformat by round-trip monitors through the tool itself. "
                   "36 distinct deaths of the unchanged tree are recorded in known_findings.d/C13.json keyed by tool/site.")
     trusted_base = ["reference functions (lean/EaselModel/Miniapps) tied to the tools by exact stdout comparison on generated valid inputs",
                     "python runner harness/h_miniapps.py, gcc, ASan/UBSan/LSan, process/file-system behaviour",
                     "Lean compiler/runtime for the executable driver; libc printf rounding modelled by exact rational rounding (L0)"]
     assumptions = ["reference functions cover: esl-seqstat (-a -c --comptbl, dna/rna/amino), esl-alirev, esl-alipid, esl-seqrange, esl-selectn, esl-mask (-r -l -m -x), "
                    "esl-reformat (fasta/afa, -d -l -n -r -u -x --gapsym --rename --replace), esl-shuffle (-m -k -w -r -N -L, -G for dna/rna), esl-sfetch "
-                   "(--index, key, -r, -n, -c, -f, -C), easel downsample (lines, -s); FASTA/aligned-FASTA input only",
-                   "alphabet guessing, the other sequence/alignment formats, esl-translate, esl-weight, esl-alistat, esl-afetch are not modelled here (C04/C01/C03/C16/C17 models)",
+                   "(--index, key, -r, -n, -c, -f, -C), easel downsample (lines, -s), esl-translate (-c -l -m -M --watson --crick), esl-alistat/easel alistat (default, -1), "
+                   "esl-weight (-g -p -b --id), easel filter (default options), easel index; FASTA/aligned-FASTA input only",
+                   "alphabet guessing, the other sequence/alignment formats as input, esl-translate -W, esl-weight -f are not modelled; other alignment formats and "
+                   "esl-afetch are checked by conversion back through the tool (afa -> format -> afa, fetched record -> afa), not against a model",
                    "process and file-system behaviour of the tools, libc printf, and the python runner are trusted",
                    "the fixed search streams are the same at every seed (so that every death of the unchanged tree is an exactly known witness); only the "
                    "tools outside gen/c13gen.py:FRAGILE are additionally explored with the seed-dependent stream, on valid inputs x option combinations"]
@@ -275,7 +279,7 @@ class C13(Prop):
 
 def _site(site):
     """coarsen sites that are one root cause: a count from the command line / input reaches ESL_ALLOC unchecked"""
-    if re.search(r"malloc_of_size_-?N_failed|zero_malloc_disallowed|realloc_of_size|zero_realloc", site):
+    if re.search(r"alloc_(of|for)_size_-?N_failed|zero_malloc_disallowed|zero_realloc", site):
         return "unchecked-alloc-size"
     return site
 
